@@ -11,6 +11,7 @@
 #include <fstream>
 #include <iostream>
 #include <poll.h>
+#include <sys/prctl.h>
 #include <sys/resource.h>
 #include <sys/stat.h>
 #include <sys/wait.h>
@@ -364,6 +365,7 @@ RunResult runSingle(const Engine &eng, const Plan &plan, const std::map<std::str
         exit(2);
     }
     if (pid == 0) {
+        prctl(PR_SET_PDEATHSIG, SIGKILL); // a run never outlives its zygote
         close(po[0]);
         close(pe[0]);
         dup2(pe[1], 2);
@@ -557,8 +559,13 @@ Plan shrinkPlan(const Engine &eng, const Plan &orig, const RunResult &ref, int b
 {
     Plan best = orig;
     used = 0;
+    // a time budget as well: a violation whose runs are slow (hangs in particular) must not stall the batch
+    double deadline = nowS() + 90;
+    if (ref.v.cls == "timeout") {
+        budget = std::min(budget, 6);
+    }
     auto test = [&](const Plan &p) {
-        if (used >= budget) {
+        if (used >= budget || nowS() > deadline) {
             return false;
         }
         ++used;
@@ -849,7 +856,7 @@ int main(int argc, char **argv)
     std::map<std::string, long> totals;
     std::set<std::string> allStates;
     std::set<std::string> reportedSigs;
-    long nViol = 0, nKnown = 0, nRuns = 0, harnessErrors = 0;
+    long nViol = 0, nKnown = 0, nRuns = 0, harnessErrors = 0, nTimeouts = 0;
     double t0 = nowS();
     for (uint64_t idx = start + offset; idx < start + count; idx += stride) {
         Rng rng(mixSeed(seed, eng->name, idx));
@@ -876,6 +883,14 @@ int main(int argc, char **argv)
         }
         if (!r.hasViolation) {
             continue;
+        }
+        // the batch has already failed: do not spend the budget on hundreds of further (possibly hanging) runs
+        if (r.v.cls == "timeout") {
+            ++nTimeouts;
+        }
+        if (nViol >= 40 || nTimeouts > 4) {
+            printf("STOPPED\t%llu\tearly stop after %ld violations / %ld timeouts\n", (unsigned long long)idx, nViol, nTimeouts);
+            break;
         }
         if (known.count(r.v.sig) != 0) {
             ++nKnown;
